@@ -328,6 +328,8 @@ def mk_mask(base, cond):
         return ('cols', mk_mask(base[1], cond), base[2])
     if tg == 'mask':         # x[a][b] -> x[a & b]
         return ('mask', base[1], mk_and([base[2], cond]))
+    if tg == 'index':        # x.index[m] -> x[m].index
+        return ('index', mk_mask(base[1], cond))
     return ('mask', base, cond)
 
 
